@@ -6,7 +6,14 @@ class Poly:
     __slots__ = ('t',)
 
     def __init__(self, t=None):
-        self.t = {m: Fraction(c) for m, c in (t or {}).items() if c != 0}
+        self.t = {m: (c if type(c) is Fraction else Fraction(c)) for m, c in (t or {}).items() if c != 0}
+
+    @staticmethod
+    def _mk(t):
+        """Internal: t already maps monomials to Fractions; zero terms may be present."""
+        p = Poly.__new__(Poly)
+        p.t = {m: c for m, c in t.items() if c}
+        return p
 
     @staticmethod
     def const(c):
@@ -32,12 +39,12 @@ class Poly:
         t = dict(self.t)
         for m, c in o.t.items():
             t[m] = t.get(m, 0) + c
-        return Poly(t)
+        return Poly._mk(t)
 
     __radd__ = __add__
 
     def __neg__(self):
-        return Poly({m: -c for m, c in self.t.items()})
+        return Poly._mk({m: -c for m, c in self.t.items()})
 
     def __sub__(self, o):
         return self + (-_p(o))
@@ -52,7 +59,7 @@ class Poly:
             for m2, c2 in o.t.items():
                 m = _mulmono(m1, m2)
                 t[m] = t.get(m, 0) + c1 * c2
-        return Poly(t)
+        return Poly._mk(t)
 
     __rmul__ = __mul__
 
@@ -121,6 +128,10 @@ class Poly:
 
 
 def _mulmono(a, b):
+    if not a:
+        return b
+    if not b:
+        return a
     d = dict(a)
     for s, e in b:
         d[s] = d.get(s, 0) + e
